@@ -30,7 +30,7 @@ Theorem requested_file_lemma c t p n k sz d ff :
   c_paths c = [p] -> lookup t p = Some (File n k sz d ff) -> ff_clean ff = true ->
   no_limits c = true -> no_xpanic c ->
   fs_calls c t = if kind_accepted c k && size_ok c sz
-                 then map (fun e => (e, p)) (filter (fun e => c_required c e p) (c_exts c)) else [].
+                 then map (fun e => (e, p)) (filter (fun e => req c e p sz no_ff) (c_exts c)) else [].
 Proof.
   intros P L FC NL NP. unfold fs_calls, fs_result, run_fs. rewrite P. cbn [walk_individual_paths]. rewrite L.
   assert (FS : ff_stat ff = false).
@@ -42,7 +42,7 @@ Proof.
   assert (EV : s_events st1 = call_events c (HC [] p (File n k sz d ff) false)).
   { rewrite <- (ns_events st1), N, ns_events. unfold apply_call. rewrite apply_events_events. reflexivity. }
   assert (R : calls (s_events st1) = if kind_accepted c k && size_ok c sz
-                 then map (fun e => (e, p)) (filter (fun e => c_required c e p) (c_exts c)) else []).
+                 then map (fun e => (e, p)) (filter (fun e => req c e p sz no_ff) (c_exts c)) else []).
   { rewrite EV, file_call_calls by exact FC. cbn [gi_match_stack existsb]. rewrite andb_false_r. cbn [negb]. rewrite andb_true_r. reflexivity. }
   destruct sg; [exact R|exact R|contradiction].
 Qed.
